@@ -3,6 +3,8 @@ import Csvq.Model.Commit
 import Csvq.Gen.FsProto
 import Csvq.Model.FileBytes
 import Csvq.Model.Proto
+import Csvq.Model.TxCommit
+import Csvq.Model.Fixed
 namespace Csvq.Drive
 open Csvq.Commit
 
@@ -31,6 +33,66 @@ def fbytesOp (f : Csvq.FileBytes.F) (tok : String) : Option Csvq.FileBytes.F :=
     | ["w", h] => (Csvq.Proto.unhex h).map fun b => Csvq.FileBytes.write f b
     | _ => none
 
+
+/-! the commit with a refusing encoder (Model/TxCommit.lean over the regenerated loop bodies)
+
+    c10.txcommit <table>…      table = <c|u>:ok | <c|u>:fail | <c|u>:<fmt>:<enc>:<width>:<hex of the offending text>
+                               (c: created in this transaction, u: updated); tokens starting with `#` are comments
+        answer: what each table file holds after the COMMIT statement: `old` / `new`, created: `absent` / `new`
+    c10.endlb <fmt> <enc> <LF|CRLF|CR>      the bytes (hex) a written file ends with
+    c10.newfixed <LF|CRLF> <withoutHeader 0|1> <p1,p2,…> <row>…    row = hex,hex,… (`-`: empty text; all cells are
+                               left-aligned texts): the file (hex) a fixed-length table with explicit delimiter
+                               positions is written as, or `E` when the writer refuses it -/
+
+def unhexOrEmpty (s : String) : Option (List Nat) := if s = "-" then some [] else Csvq.Proto.unhex s
+
+/-- (created?, does its encoder refuse it?) -/
+def parseTxTable (tok : String) : Option (Bool × Bool) :=
+  match tok.splitOn ":" with
+  | [k, "ok"] => if k = "c" then some (true, false) else if k = "u" then some (false, false) else none
+  | [k, "fail"] => if k = "c" then some (true, true) else if k = "u" then some (false, true) else none
+  | [k, fmt, enc, w, hx] =>
+    match w.toNat?, unhexOrEmpty hx with
+    | some w, some v =>
+      let bad := Csvq.TxCommit.cellRefused fmt enc w v
+      if k = "c" then some (true, bad) else if k = "u" then some (false, bad) else none
+    | _, _ => none
+  | _ => none
+
+def txCommit (toks : List String) : String :=
+  match (toks.filter fun t => !t.startsWith "#").mapM parseTxTable with
+  | none => "bad-op"
+  | some tabs =>
+    let idx := List.range tabs.length
+    let created := idx.filter fun i => (tabs.getD i (false, false)).1
+    let updated := idx.filter fun i => !(tabs.getD i (false, false)).1
+    let fail : Nat → Csvq.TxCommit.Fail := fun i => { encode := (tabs.getD i (false, false)).2 }
+    let bodies := Csvq.FileBytes.loopBodies Csvq.Gen.fxTransactionCommit 1000
+    let r := Csvq.TxCommit.commitRun bodies created updated fail
+    String.intercalate " " (idx.map fun i =>
+      if Csvq.TxCommit.swapped r.1 fail i then "new"
+      else if (tabs.getD i (false, false)).1 then "absent" else "old")
+
+def fixedRow (tok : String) : Option (List Csvq.Fixed.Field) :=
+  (tok.splitOn ",").mapM fun h =>
+    match unhexOrEmpty h with
+    | some b => (String.fromUTF8? (ByteArray.mk (b.map (fun n => UInt8.ofNat n)).toArray)).map fun s => ⟨s.toList, .left⟩
+    | none => none
+
+def newFixed (args : List String) : String :=
+  match args with
+  | lb :: wh :: ps :: rows =>
+    let lb? : Option Csvq.Csv.LB := if lb = "LF" then some .lf else if lb = "CRLF" then some .crlf else none
+    match lb?, (ps.splitOn ",").mapM String.toNat?, rows.mapM fixedRow with
+    | some lb, some ps, some (hdr :: recs) =>
+      let woh := wh = "1"
+      let t : Csvq.Fixed.Table := if woh then ⟨[], hdr :: recs⟩ else ⟨hdr.map (·.contents), recs⟩
+      match Csvq.Fixed.fileFixed (fun c => c.utf8Size) { lb := lb, withoutHeader := woh, positions := some ps, ending := some lb } t with
+      | .ok cs => Csvq.Proto.hex ((String.ofList cs).toUTF8.toList.map (·.toNat))
+      | .error _ => "E"
+    | _, _, _ => "bad-op"
+  | _ => "bad-op"
+
 def c10 (cmd : String) (args : List String) : String :=
   let ops := Csvq.Gen.commitUpdateOps
   match cmd, args with
@@ -50,6 +112,9 @@ def c10 (cmd : String) (args : List String) : String :=
     -- closing a handler that was opened for update / read: the data file is not removed (ForCreate guard)
     let fops := (l.filter (· ≠ "remove(h.path)")).map parseOp
     showData (runOps fops { symStart with rlock := true })
+  | "txcommit", toks => txCommit toks
+  | "endlb", [fmt, enc, lb] => Csvq.Proto.hex (Csvq.TxCommit.endingLineBreak fmt enc lb)
+  | "newfixed", args => newFixed args
   | "fbytes", toks =>
     match toks.foldlM fbytesOp (⟨[], 0⟩ : Csvq.FileBytes.F) with
     | some f => s!"{Csvq.Proto.hex f.bytes}@{f.pos}"
